@@ -172,13 +172,19 @@ fn damage(rng: &mut Rng, r: &Row) -> (String, &'static str) {
             (format!("{},{},{}", r.cp_field, f, r.model.desc), "property name broken")
         }
         11 => {
-            let f = match rng.below(4) {
+            let q = prop_name(r.model.p2.unwrap_or(r.model.p1));
+            let k = rng.below(7);
+            let f = match k {
                 0 => format!("{} or ", prop_name(r.model.p1)),
                 1 => format!(" or {}", prop_name(r.model.p1)),
                 2 => " or ".to_string(),
-                _ => format!("{} or {} or {}", prop_name(r.model.p1), prop_name(r.model.p1), prop_name(r.model.p1)),
+                3 => format!("{} or {} or {}", prop_name(r.model.p1), prop_name(r.model.p1), prop_name(r.model.p1)),
+                // the joiner glued to a name: one word that is not a property name
+                4 => format!("{}or{}", prop_name(r.model.p1), q),
+                5 => format!("{} or{}", prop_name(r.model.p1), q),
+                _ => format!("{}or {}", prop_name(r.model.p1), q),
             };
-            (format!("{},{},{}", r.cp_field, f, r.model.desc), "'or' without two operands")
+            (format!("{},{},{}", r.cp_field, f, r.model.desc), if k < 4 { "'or' without two operands" } else { "'or' glued to a property name" })
         }
         12 => {
             let f = if r.model.is_range { format!("{:04X}-", r.model.lo) } else { format!("{:04X}-{:04X}-{:04X}", r.model.lo, r.model.lo, r.model.lo) };
@@ -431,6 +437,21 @@ pub fn run(env: &Env) -> Rec {
         }
     }
     rec.exhaustive("all 7 property names and all 49 ordered pairs");
+    // the same 49 pairs with the blank before and/or after the joiner deleted: the field is then one or two
+    // words none of which is "or", i.e. an unknown property name ("ID_DISorFREE_PVAL", "ID_DIS orFREE_PVAL")
+    for a in &all {
+        for b in &all {
+            for f in [
+                format!("{}or{}", prop_name(*a), prop_name(*b)),
+                format!("{} or{}", prop_name(*a), prop_name(*b)),
+                format!("{}or {}", prop_name(*a), prop_name(*b)),
+            ] {
+                check_bad_line(&format!("0041,{},D", f), "'or' glued to a property name", &mut rec);
+                check_bad_line(&format!("0041-005A,{},D, E", f), "'or' glued to a property name", &mut rec);
+            }
+        }
+    }
+    rec.exhaustive("all 49 ordered pairs with the joiner glued to the first, the second or both names (must be rejected)");
     // random rows, their malformed variants, and whole files
     let n = env.n(2_000_000, 50_000_000);
     let per = 2000usize;
